@@ -3,77 +3,120 @@
 spec  : ResultAlg.tla (operators named like the methods of wannierberri/result/*.py + the store state machine, the laws
         as invariants), MC_ResultAlg.tla (families of EnergyResult / KBandResult / ResultDict / VoidResult objects with
         integer data, all operation sequences up to MaxOps)
-bind  : spec -> code: every behaviour of the bounded model (operation sequence) is executed on the real classes and
-        the whole store (data, shapes, energies, rank, transforms, comment) and the written .npz files are compared with
-        the specification after every operation; thorough adds longer behaviours from `tlc -simulate`
+bind  : spec -> code: the behaviours of the bounded model (operation sequences) are executed on the real classes and the
+        whole store (data, shapes, energies, rank, transforms) is compared with the specification after every operation;
+        a reloaded result is compared with the real object that was saved (energies, data, rank, transforms, comment,
+        titles); thorough adds longer behaviours from `tlc -simulate`
         code -> spec: results of the real operators on random objects (larger shapes, rank <= 3, complex data, random
-        scalars / point operations) are recorded and every clause of ResultAlgRec is evaluated on them by TLC
+        scalars / point operations / arrays for mul_array) are recorded and every clause of ResultAlgRec is evaluated on
+        them by TLC
+        numeric_only (deciding): binary save / load of random float64 / complex128 results is bit-exact
+
+What is NOT demanded (not in the property statement): which comment a sum / product carries, the layout of the .npz file
+(reported as information), the text stored for a saved VoidResult, whether `K / s` is the documented copy or the
+element-wise quotient, how a K-resolved result is chunked internally.
 """
 import os
 import copy
 import glob
 import random
 import shutil
+from concurrent.futures import ThreadPoolExecutor
 
 import numpy as np
 
 from .. import tlc, ftable
-from ..common import Report, MachineryError, seed, workdir
+from ..common import Report, MachineryError, seed, workdir, WORK
 from . import _resultalg as RA
 
 PROPS = {
     "C16": dict(level="model_checking",
                 technique="TLC exhaustive on ResultAlg.tla (store of result objects, every operator sequence up to MaxOps, vector-space / Void / "
-                          "transform / save-load laws as invariants) + replay of every TLC behaviour on the real classes with comparison of the "
-                          "whole store after each operation + TLC validation of recorded operator results (ResultAlgRec.tla)",
-                text="TLC applies Add, Sub, add(), MulScalar, DivScalar, Void on either side, Transform(g) for g in {1, I, T, C4z, Mx, T*Mx}, "
-                     "SaveNpz/LoadNpz in every order to stores of EnergyResult, KBandResult, ResultDict and VoidResult objects with integer "
-                     "(also complex) data and checks commutativity, associativity, a-a=0, distributivity, 1*a=a, Void neutrality, additivity "
-                     "of Transform and Load(Save(r))=r on all stored objects; each behaviour is run on the real classes and every object "
-                     "compared exactly after every step; random real operator results are validated clause by clause by TLC.",
-                note="documented meanings only (DESIGN.md 7.2): K-resolved `+` is the direct sum over k-points, `/` a copy; results with an "
-                     "undeclared (None) transform are outside (named predicates Savable / TransformDefined); integer data, so all float "
-                     "operations of the implementation are exact (integrality of every projected value is verified to 1e-9)",
+                          "transform / mul_array / save-load laws as invariants of the model) + replay of the TLC behaviours on the real classes "
+                          "with comparison of the whole store after each operation + TLC validation of recorded operator results "
+                          "(ResultAlgRec.tla) + bit-exact binary round trip of random float results (numeric, deciding)",
+                text="TLC applies Add, Sub, add(), MulScalar, DivScalar, mul_array, Void / 0 / None on either side, Transform(g) for g in "
+                     "{1, I, T, C4z, Mx, T*Mx}, SaveNpz/LoadNpz to stores of EnergyResult, KBandResult, ResultDict and VoidResult objects with "
+                     "integer (also complex) data and checks, on the model, commutativity, associativity, a-a=0, distributivity, 1*a=a, Void "
+                     "neutrality, additivity of Transform and Load(Save(r))=r on all stored objects. quick: every one-operation behaviour of "
+                     "12 families, every two-operation behaviour of 3 families, every save/load behaviour of the 5 energy-resolved families "
+                     "and ~60 simulated behaviours of 4 operations are run on the real classes, every object compared exactly after every "
+                     "step; thorough: two operations for all families and three start patterns, 1500 simulated behaviours of 5 operations; "
+                     "its three-operation model (c16_mc3) is checked by TLC only and not replayed. The laws on the REAL classes are "
+                     "evaluated by TLC on recorded results of one random triple per record (not on all tuples).",
+                note="documented meanings only (DESIGN.md 7.2): K-resolved `+` is the direct sum over k-points, `/` a copy (the element-wise "
+                     "quotient is accepted too); named exclusions: Savable / TransformDefined (results with an undeclared (None) transform), "
+                     "EnergyShapeOK (no energy axis), ZeroNeutralDefined (0 / None next to a VoidResult), AddInPlaceDefined (add() with a "
+                     "VoidResult argument: reported as an observation); integer data, so all float operations of the implementation are exact "
+                     "(integrality of every projected value is verified to 1e-9); comments / titles are compared only for reloaded results",
                 ref="DESIGN.md 3.6"),
 }
 
 INVS = ["NoRaise", "LawAddCommutes", "LawAddAssociative", "LawSubSelf", "LawSubAdd", "LawElementWise", "LawScalar", "LawDiv",
-        "LawVoidNeutral", "LawTransformLinear", "LawTransformOrder", "LawSaveLoad"]
+        "LawVoidNeutral", "LawTransformLinear", "LawTransformOrder", "LawSaveLoad", "LawMulArray"]
 ALL_SYMS = ("Identity", "Inversion", "TimeReversal", "C4z", "Mx", "TRMx")
 OPS = ["Add", "Sub", "AddInPlace", "Mul", "Div", "AddVoidRight", "AddVoidLeft", "SubVoidRight", "SubVoidLeft", "Transform", "SaveNpz",
-       "LoadNpz", "SaveVoid"]
+       "LoadNpz", "SaveVoid", "AddZeroLeft", "AddNoneRight", "MulArray"]
+NO_OPERAND = ("LoadNpz", "SaveVoid")
+COMPARE_ONLY = ("AddVoidRight", "AddVoidLeft", "SubVoidRight", "AddZeroLeft", "AddNoneRight")
 REC_CFG = ("SPECIFICATION RecSpec\nCONSTANTS\n  Wrong = {}\n  InitStores <- RecSeq\n  Scalars <- RecNone\n  Divisors <- RecNone\n"
            "  Syms <- RecSeq\n  ActSyms <- RecNone\n  MaxOps = 0\nINVARIANT Report\nCHECK_DEADLOCK FALSE\n")
-
+REC_CHUNK = 150           # records per TLC run (each run has its own timeout)
+TLC_TIMEOUT = 3000
 
 CLAUSE_FIELDS = dict(add_equals_spec=("ab", "ba"), add_commutes=("ab", "ba"), add_associative=("ab_c", "a_bc"), sub_equals_spec=("a_minus_b",),
                      sub_self_zero=("a_minus_a",), mul_equals_spec=("sa", "sb", "as"), mul_distributes=("s_ab", "sa_sb"), mul_associative=("t_sa",),
                      mul_one=("one_a",), div_equals_spec=("sa_div_s",), div_meaning=("sa_div_s", "sa"), void_right_neutral=("a_void",),
                      void_left_neutral=("void_a",), void_sub_right=("a_sub_void",), void_sub_left=("void_sub_a",), add_in_place=("a_iadd_b",),
+                     zero_left_neutral=("zero_a",), none_right_neutral=("a_none",),
                      transform_equals_spec=("Ta", "Tb"), transform_additive=("Tab", "Ta_Tb", "Ta", "Tb"), transform_homogeneous=("Tsa", "Ta"),
-                     transform_keeps_meta=("Ta",), file_equals_spec=(), load_equals_spec=("loaded",), round_trip=("loaded",))
+                     transform_keeps_meta=("Ta",), file_equals_spec=(), load_equals_spec=("loaded",), round_trip=("loaded",),
+                     marr_equals_spec=("av",), marr_additive=("abv", "av", "bv"), marr_homogeneous=("sav",), marr_keeps_meta=("av",))
 CLAUSE_METHOD = dict(add_equals_spec="__add__", add_commutes="__add__", add_associative="__add__", sub_equals_spec="__sub__", sub_self_zero="__sub__",
                      mul_equals_spec="__mul__", mul_distributes="__mul__", mul_associative="__mul__", mul_one="__mul__", div_equals_spec="__truediv__",
                      div_meaning="__truediv__", void_right_neutral="__add__", void_left_neutral="__add__", void_sub_right="__sub__",
-                     void_sub_left="__sub__", add_in_place="add", transform_equals_spec="transform", transform_additive="transform",
+                     void_sub_left="__sub__", add_in_place="add", zero_left_neutral="__radd__", none_right_neutral="__add__",
+                     transform_equals_spec="transform", transform_additive="transform",
                      transform_homogeneous="transform", transform_keeps_meta="transform", file_equals_spec="save", load_equals_spec="from_npz",
-                     round_trip="from_npz")
+                     round_trip="from_npz", marr_equals_spec="mul_array", marr_additive="mul_array", marr_homogeneous="mul_array",
+                     marr_keeps_meta="mul_array")
+ADVISORY_CLAUSES = ("file_equals_spec", "load_equals_spec")       # the layout of the .npz file is not part of the property
 
 
 def qset(names):
     return "{" + ", ".join(f'"{n}"' for n in names) + "}"
 
 
-def mc_cfg(fams, maxops, wrong=(), pairs="PairsA", act=("C4z", "TRMx"), scal="ScalarsA", invs=INVS):
-    return ("SPECIFICATION Spec\nCONSTANTS\n"
+def mc_cfg(fams, maxops, wrong=(), pairs="PairsA", act=("C4z", "TRMx"), scal="ScalarsA", invs=INVS, spec="Spec", symsel=ALL_SYMS):
+    return (f"SPECIFICATION {spec}\nCONSTANTS\n"
             f"  Wrong = {qset(wrong)}\n  FamIds = {{{', '.join(str(f) for f in fams)}}}\n  PatPairs <- {pairs}\n"
-            f"  SymSel = {qset(ALL_SYMS)}\n  ActSyms = {qset(act)}\n  InitStores <- MCInitStores\n  Syms <- MCSyms\n"
+            f"  SymSel = {qset(symsel)}\n  ActSyms = {qset(act)}\n  InitStores <- MCInitStores\n  Syms <- MCSyms\n"
             f"  Scalars <- {scal}\n  Divisors = {{2}}\n  MaxOps = {maxops}\n"
             + "".join(f"INVARIANT {i}\n" for i in invs) + "CHECK_DEADLOCK FALSE\n")
 
 
 def hkey(hist):
     return tuple((e["op"], e["i"], e["j"], e["s"], e["g"]) for e in hist)
+
+
+class Runs:
+    """names of TLC runs / scratch directories, unique per property and process (several checks may run at once)"""
+
+    def __init__(self, pid):
+        self.tag = f"{pid.lower()}p{os.getpid()}"
+        self.used = []
+
+    def name(self, part):
+        n = f"{part}_{self.tag}"
+        self.used.append(n)
+        return n
+
+    def cleanup(self):
+        for n in self.used:
+            for d in (os.path.join(WORK, "tlc", n), os.path.join(WORK, "records", n), os.path.join(WORK, n)):
+                shutil.rmtree(d, ignore_errors=True)
+            for d in glob.glob(os.path.join(WORK, "tlc", f"rec_{n}_*")):
+                shutil.rmtree(d, ignore_errors=True)
 
 
 class Info:
@@ -84,7 +127,7 @@ class Info:
 
     def __call__(self):
         init_store, done, k, a_spec, b_spec, cplx = self.a
-        return dict(initial_store=RA.jsonable(init_store), operations=done, failing_step=k + 1,
+        return dict(initial_store=RA.jsonable(init_store), operations=RA.jsonable(done), failing_step=k + 1,
                     operands=[RA.sig(x) for x in (a_spec, b_spec) if x], complex_data=cplx,
                     how="build the initial objects (harness/props/_resultalg.py make_obj) and apply the operations (apply_op)")
 
@@ -98,6 +141,8 @@ class Replayer:
         self.found = {}          # violation key -> [count, first detail]
         self.ops = {}            # op -> number of executed steps
         self.nbeh = 0
+        self.layout = dict(files_compared=0, layout_as_specified=0, first_difference=None)
+        self.kdiv = dict(copy=0, quotient=0)
 
     def violation(self, key, detail):
         if key in self.found:
@@ -109,100 +154,160 @@ class Replayer:
         for key, (n, det) in sorted(self.found.items()):
             det = dict(det, occurrences=n)
             self.rep.violation(key, det)
+        self.found = {}
+
+    # ---- K / s : the documented copy and the element-wise quotient are both accepted
+    def accept_kdiv(self, res, operand, s, spec_res, cplx):
+        """returns the object to keep in the store: the real result, or - when its k-resolved parts hold operand / s -
+        an object rebuilt from the specification (which says `copy`), so that the later steps are judged on their own"""
+        EnergyResult, KBandResult, ResultDict, VoidResult, ps = RA.wb()
+
+        def quotient(r, a):
+            try:
+                got, ref = RA.k_full(r), RA.k_full(a)
+            except Exception:
+                return False
+            return got.shape == ref.shape and not np.array_equal(got, ref) and np.abs(got * s - ref).max() <= RA.TOL_INT
+
+        try:
+            if spec_res["kind"] == "K" and isinstance(res, KBandResult):
+                if quotient(res, operand):
+                    self.kdiv["quotient"] += 1
+                    return RA.make_obj(spec_res, cplx)
+                self.kdiv["copy"] += 1
+            elif spec_res["kind"] == "D" and isinstance(res, ResultDict):
+                for key, o in spec_res["items"].items():
+                    if o["kind"] == "K" and isinstance(res.results.get(key), KBandResult):
+                        if quotient(res.results[key], operand.results[key]):
+                            self.kdiv["quotient"] += 1
+                            res.results[key] = RA.make_obj(o, cplx)
+                        else:
+                            self.kdiv["copy"] += 1
+        except Exception:
+            pass                     # whatever is odd about the result is found by the comparison that follows
+        return res
 
     def behaviour(self, init_store, steps, tag):
         """steps: list of (event, expected state after it). Compares after every step."""
         cplx = RA.is_complex_store(init_store)
         objs = [RA.make_obj(o, cplx) for o in init_store]
-        files = []
+        files = []               # path of the real file, or None when save() raised
+        saved = []               # projection of the real object at the time it was saved (None for a VoidResult)
         self.nbeh += 1
         done = []
         for k, (ev, st) in enumerate(steps):
             op = ev["op"]
             self.ops[op] = self.ops.get(op, 0) + 1
-            done.append({f: ev[f] for f in ("op", "i", "j", "s", "g", "out")})
+            done.append({f: ev.get(f, ()) for f in ("op", "i", "j", "s", "g", "out", "v")})
             pre = steps[k - 1][1]["store"] if k else init_store
-            a_spec = pre[ev["i"] - 1] if op not in ("LoadNpz", "SaveVoid") else None
+            a_spec = pre[ev["i"] - 1] if op not in NO_OPERAND else None
             b_spec = pre[ev["j"] - 1] if ev["j"] else None
             kinds = (a_spec["kind"] if a_spec else "") + ("," + b_spec["kind"] if b_spec else "")
             self.rep.case((tag, hkey(done)))
             info = Info(init_store, done, k, a_spec, b_spec, cplx)
+            out = ev["out"]
             raised = None
             res = None
-            try:
-                res = RA.apply_op(ev, objs, files, k, self.scratch)
-            except Exception as ex:  # the specification defines a result for every operation it generates
-                raised = ex
-                self.violation(f"raises:{RA.where_raised(ex)}:{type(ex).__name__}",
-                               dict(info(), expected="a result (see expected_store)", got=f"{type(ex).__name__}: {ex}",
-                                    expected_store=RA.jsonable([RA.expected(o) for o in st["store"]])))
-            out = ev["out"]
+            skip_load = op == "LoadNpz" and files[ev["i"] - 1] is None        # its save() already was reported
+            if not skip_load:
+                try:
+                    res = RA.apply_op(ev, objs, files, k, self.scratch)
+                except MachineryError:
+                    raise
+                except Exception as ex:  # the specification defines a result for every operation it generates
+                    raised = ex
+                    self.violation(f"raises:{RA.where_raised(ex)}:{type(ex).__name__}",
+                                   dict(info(), expected="a result (see expected_store)", got=f"{type(ex).__name__}: {ex}",
+                                        expected_store=RA.jsonable([RA.expected(o) for o in st["store"]])))
+            if op == "Div" and raised is None:
+                res = self.accept_kdiv(res, objs[ev["i"] - 1], ev["s"], st["store"][out - 1], cplx)
             creates = op not in ("AddInPlace", "SaveNpz", "SaveVoid") and out != 0
             if creates:
                 if out != len(objs) + 1:
                     raise MachineryError(f"hist entry {ev} does not append to a store of {len(objs)} objects")
-                objs.append(res if raised is None else RA.make_obj(st["store"][out - 1], cplx))
+                objs.append(res if (raised is None and not skip_load) else RA.make_obj(st["store"][out - 1], cplx))
             elif out == 0 and raised is None:
-                # x + Void, Void + x, x - Void : has to equal x (it is not kept)
+                # x + Void, Void + x, x - Void, 0 + x, x + None : has to equal x (it is not kept)
                 self.compare(op, kinds, "result", RA.expected(st["store"][ev["i"] - 1]), res, info)
             if op == "AddInPlace" and raised is not None:
                 objs[ev["i"] - 1] = RA.make_obj(st["store"][ev["i"] - 1], cplx)
             if op in ("SaveNpz", "SaveVoid"):
                 if raised is not None:
                     files.append(None)
+                    saved.append(None)
                 else:
                     try:
-                        got = RA.read_npz(files[-1])
-                    except RA.NonIntegral as ex:
-                        got = dict(type=str(ex))
+                        saved.append(RA.project(objs[ev["i"] - 1]) if op == "SaveNpz" else None)
+                    except Exception:
+                        saved.append(None)
+                    # the layout of the file: information only
+                    got = RA.read_npz(files[-1])
                     exp = RA.expected_file(st["files"][-1])
-                    if got != exp:
-                        self.violation(f"wrong file:{RA.CLASS.get(kinds[:1], 'VoidResult')}.save", dict(info(), expected=RA.jsonable(exp), got=RA.jsonable(got),
-                                                                  differing=[f for f in exp if exp[f] != got.get(f)]))
-            if op == "LoadNpz" and files[ev["i"] - 1] is None:
-                pass
+                    self.layout["files_compared"] += 1
+                    if got == exp:
+                        self.layout["layout_as_specified"] += 1
+                    elif self.layout["first_difference"] is None:
+                        self.layout["first_difference"] = dict(differing=[f for f in exp if exp[f] != got.get(f)],
+                                                               found_fields=sorted(got))
             # the whole store after the step
             if len(objs) != len(st["store"]):
                 raise MachineryError(f"store sizes differ after {ev}: {len(objs)} real, {len(st['store'])} spec")
             for idx, o in enumerate(st["store"]):
-                if not self.compare(op, kinds, f"store[{idx + 1}]", RA.expected(o), objs[idx], info):
+                exp = RA.expected(o)
+                ignore = RA.META
+                if op == "LoadNpz" and idx == out - 1 and not skip_load and raised is None:
+                    # the reloaded result: comment and titles as well, those of the REAL object that was saved
+                    src = saved[ev["i"] - 1]
+                    if src is not None and exp["kind"] == "E" and src.get("kind") == "E":
+                        exp = dict(exp, comment=src["comment"], titles=src["titles"])
+                        ignore = ()
+                if not self.compare(op, kinds, f"store[{idx + 1}]", exp, objs[idx], info, ignore):
                     objs[idx] = RA.make_obj(o, cplx)        # repair, so that later steps are judged on their own
         if self.nbeh in (1, 500) and steps:
             self.rep.sample(dict(behaviour=[f"{e['op']}(i={e['i']}, j={e['j']}, s={e['s']}, g={e['g']}) -> {e['out']}" for e, _ in steps],
                                  initial_store=[RA.sig(o) for o in init_store],
                                  final_store=RA.jsonable([RA.expected(o) for o in steps[-1][1]["store"]])))
 
-    def compare(self, op, kinds, what, exp, real, info):
+    def compare(self, op, kinds, what, exp, real, info, ignore=RA.META):
+        cls = RA.CLASS.get(kinds[:1], "EnergyResult" if op == "LoadNpz" else "?")
         try:
             got = RA.project(real)
         except RA.NonIntegral as ex:
-            self.violation(f"non-integral projection:{RA.CLASS.get(kinds[:1], '?')}.{RA.METHOD[op]}", dict(info(), object=what, got=str(ex)))
+            self.violation(f"non-integral projection:{cls}.{RA.METHOD[op]}", dict(info(), object=what, got=str(ex)))
             return False
-        bad = RA.diff_fields(exp, got)
+        except MachineryError:
+            raise
+        except Exception as ex:
+            # e.g. ragged chunks, a transform that is not a Transform, data that is no array
+            self.violation(f"unprojectable result:{cls}.{RA.METHOD[op]}", dict(info(), object=what, type=type(real).__name__,
+                                                                              got=f"{type(ex).__name__}: {ex}"))
+            return False
+        bad = RA.diff_fields(exp, got, ignore=ignore)
         if bad:
-            cls = "data" if any(b.endswith("data") or b.endswith("nk") or b.endswith("shape") for b in bad) else bad[0].split(".")[-1]
-            self.violation(f"wrong {cls}:{RA.CLASS.get(kinds[:1], 'EnergyResult')}.{RA.METHOD[op]}", dict(info(), object=what, differing_fields=bad, expected=RA.jsonable(exp),
-                                                             got=RA.jsonable(got)))
+            c = "data" if any(b.endswith("data") or b.endswith("nk") or b.endswith("shape") for b in bad) else bad[0].split(".")[-1]
+            self.violation(f"wrong {c}:{cls}.{RA.METHOD[op]}", dict(info(), object=what, differing_fields=bad, expected=RA.jsonable(exp),
+                                                                    got=RA.jsonable(got)))
             return False
         return True
 
 
-def run_model(rep, name, cfg, replayer, workers, maxops, require_actions=True):
-    st = ftable.enumerate_states("MC_ResultAlg.tla", cfg, name, workers=workers, timeout=3000)
-    ftable.spec_violation(rep, st, name)
+def run_model(rep, part, run, cfg, replayer, workers, maxops, require=None):
+    st = ftable.enumerate_states("MC_ResultAlg.tla", cfg, run, workers=workers, timeout=TLC_TIMEOUT)
+    ftable.spec_violation(rep, st, part)
     if st.get("violation"):
         return st
-    rep.add_tlc(name, st)
+    rep.add_tlc(part, st)
     RA.check_sym_table(st["output"])
     states = RA.fast_parse_dump(st["dump_path"])
     if len(states) != st["distinct"]:
-        raise MachineryError(f"{name}: dump has {len(states)} states, TLC reported {st['distinct']}")
+        raise MachineryError(f"{part}: dump has {len(states)} states, TLC reported {st['distinct']}")
+    states.sort(key=lambda s: (s["start"], hkey(s["hist"])))          # the order of a dump depends on the worker threads
     table = {(s["start"], hkey(s["hist"])): s for s in states}
-    if require_actions:
+    if require:
         seen_ops = {e["op"] for s in states for e in s["hist"]}
-        missing = [a for a in OPS if a not in seen_ops]
+        missing = [a for a in require if a not in seen_ops]
         if missing:
-            raise MachineryError(f"vacuous model {name}: operations never taken: {missing}")
+            raise MachineryError(f"vacuous model {part}: operations never taken: {missing}")
     nleaf = 0
     for s in states:
         if len(s["hist"]) != maxops:
@@ -213,26 +318,27 @@ def run_model(rep, name, cfg, replayer, workers, maxops, require_actions=True):
         for k in range(len(h)):
             pre = table.get((s["start"], hkey(h[:k + 1])))
             if pre is None:
-                raise MachineryError(f"{name}: prefix state missing in the dump")
+                raise MachineryError(f"{part}: prefix state missing in the dump")
             steps.append((h[k], pre))
-        replayer.behaviour(table[(s["start"], ())]["store"], steps, (name, s["start"]))
+        replayer.behaviour(table[(s["start"], ())]["store"], steps, (part, s["start"]))
     if nleaf == 0:
-        raise MachineryError(f"{name}: no behaviour of length {maxops}")
-    rep.part(name, behaviours_replayed=nleaf)
+        raise MachineryError(f"{part}: no behaviour of length {maxops}")
+    rep.part(part, behaviours_replayed=nleaf)
     os.remove(st["dump_path"])
     return st
 
 
-def run_simulation(rep, name, cfg, replayer, num, depth, workers):
-    wd = workdir("c16_sim")
+def run_simulation(rep, part, runs, cfg, replayer, num, depth, workers):
+    run = runs.name(part)
+    wd = workdir(run)
     sw = min(workers, 4)                 # TLC writes `num` behaviours per worker
-    st = tlc.run_tlc("MC_ResultAlg.tla", cfg, name, workers=sw, simulate=f"file={wd}/beh,num={max(1, num // sw)}", depth=depth, seed=seed() + 16,
-                     coverage=False, timeout=3000)
+    st = tlc.run_tlc("MC_ResultAlg.tla", cfg, run, workers=sw, simulate=f"file={wd}/beh,num={max(1, num // sw)}", depth=depth, seed=seed() + 16,
+                     coverage=False, timeout=TLC_TIMEOUT)
     if st.get("violation"):
-        ftable.spec_violation(rep, st, name)
+        ftable.spec_violation(rep, st, part)
         return
-    if st.get("error"):
-        raise MachineryError(f"TLC simulation failed ({name}): {st['error'][:400]}")
+    if st.get("timeout") or st.get("error"):
+        raise MachineryError(f"TLC simulation failed ({part}): {(st.get('error') or 'timeout')[:400]}")
     files = sorted(glob.glob(f"{wd}/beh*"))
     n = 0
     for f in files:
@@ -241,11 +347,11 @@ def run_simulation(rep, name, cfg, replayer, num, depth, workers):
             continue
         init = beh[0][1]["store"]
         steps = [(s["hist"][-1], s) for _, s in beh[1:]]
-        replayer.behaviour(init, steps, (name, os.path.basename(f)))
+        replayer.behaviour(init, steps, (part, os.path.basename(f)))
         n += 1
     if n == 0:
-        raise MachineryError(f"{name}: no simulated behaviour was produced")
-    rep.part(name, mode="simulate", behaviours_replayed=n, depth=depth, generated=st.get("generated"))
+        raise MachineryError(f"{part}: no simulated behaviour was produced")
+    rep.part(part, mode="simulate", behaviours_replayed=n, depth=depth, generated=st.get("generated"))
     shutil.rmtree(wd, ignore_errors=True)
 
 
@@ -315,7 +421,9 @@ def guarded(f):
     try:
         return RA.rec_obj(RA.project(f()))
     except RA.NonIntegral as ex:
-        return dict(kind="X", why=str(ex)[:80])
+        return dict(kind="X", why=str(ex)[:80].replace(" in ", " within "))
+    except MachineryError as ex:
+        return dict(kind="X", why=("unprojectable result: " + str(ex))[:80].replace(" in ", " within "))
     except Exception as ex:
         return dict(kind="X", why=f"{type(ex).__name__} in {RA.where_raised(ex)}")
 
@@ -354,7 +462,8 @@ def record_alg(rng):
                t_sa=guarded(lambda: t * (s * mk(sa))), one_a=guarded(lambda: 1 * mk(sa)),
                sa_div_s=guarded(lambda: (mk(sa) * s) / s),
                a_void=guarded(lambda: mk(sa) + V()), void_a=guarded(lambda: V() + mk(sa)),
-               a_sub_void=guarded(lambda: mk(sa) - V()), void_sub_a=guarded(lambda: V() - mk(sa)))
+               a_sub_void=guarded(lambda: mk(sa) - V()), void_sub_a=guarded(lambda: V() - mk(sa)),
+               zero_a=guarded(lambda: sum([mk(sa)])), a_none=guarded(lambda: mk(sa) + None))
     if same_shape(sa, sb):
         rec["a_minus_b"] = guarded(lambda: mk(sa) - mk(sb))
         if sa["kind"] in "EK":
@@ -366,6 +475,25 @@ def record_alg(rng):
     return rec, (sa, sb, sc)
 
 
+def record_marr(rng):
+    """mul_array with a one-dimensional integer array along one axis (E: energy / tensor axes, K: band / tensor axes)"""
+    cplx = rng.random() < 0.4
+    fam = rand_family(rng)
+    sa, sb = rand_obj(rng, fam, cplx, "a"), rand_obj(rng, fam, cplx, "b")
+    shape = (tuple(fam["shape"]) if fam["kind"] == "E" else (fam["nb"],)) + (3,) * fam["rank"]
+    ax = rng.randint(1, len(shape))
+    v = [rng.choice([-3, -2, -1, 1, 2, 3, 0]) for _ in range(shape[ax - 1])]
+    s = rng.choice([-2, -1, 2, 3])
+    none_axes = ax == 1 and rng.random() < 0.4          # axes=None: the leading axes of the array
+    va = np.array(v, dtype=float)
+    mk = lambda o: RA.make_obj(o, cplx)
+    call = (lambda r: r.mul_array(va)) if none_axes else (lambda r: r.mul_array(va, axes=ax - 1))
+    rec = dict(fn="marr", a=spec_rec(sa), b=spec_rec(sb), v=v, ax=0 if none_axes else ax, s=s, cplx=cplx,
+               av=guarded(lambda: call(mk(sa))), bv=guarded(lambda: call(mk(sb))), abv=guarded(lambda: call(mk(sa) + mk(sb))),
+               sav=guarded(lambda: call(s * mk(sa))))
+    return rec, (sa, sb)
+
+
 def rand_sym(rng):
     """a point operation with integer matrix: signed permutation (proper or improper), with or without time reversal"""
     ps = RA.wb()[4]
@@ -375,7 +503,9 @@ def rand_sym(rng):
         R[r_, c_] = rng.choice([-1, 1])
     TR = rng.random() < 0.4
     g = ps.PointSymmetry(R, TR=TR)
-    return g, dict(R=[[int(round(x)) for x in row] for row in g.R], TR=bool(g.TR), Inv=bool(g.Inv))
+    inv = bool(np.linalg.det(R) < 0)
+    proper = R * (-1 if inv else 1)
+    return g, dict(R=[[int(round(x)) for x in row] for row in proper], TR=bool(TR), Inv=inv)
 
 
 def record_sym(rng):
@@ -391,6 +521,7 @@ def record_sym(rng):
 
 
 def record_save(rng, scratch, n):
+    """-> (record, error text of a raising save()/from_npz() or None, source object)"""
     EnergyResult, KBandResult, ResultDict, VoidResult, ps = RA.wb()
     cplx = rng.random() < 0.4
     if rng.random() < 0.1:
@@ -401,144 +532,288 @@ def record_save(rng, scratch, n):
     name = os.path.join(scratch, f"rec_{n}")
     rec = dict(fn="save", a=spec_rec(so), cplx=cplx)
     try:
-        real.save(name)
-        f = RA.read_npz(name + ".npz")
-        if f["type"] == "EnergyResult":
-            f = dict(f, E_titles=list(f["E_titles"]), data=[list(x) for x in f["data"]], dshape=list(f["dshape"]),
-                     Energies=[list(e) for e in f["Energies"]],
-                     transformTR={k: (list(v) if isinstance(v, tuple) else v) for k, v in f["transformTR"].items()},
-                     transformInv={k: (list(v) if isinstance(v, tuple) else v) for k, v in f["transformInv"].items()})
-        rec["file"] = f
+        try:
+            real.save(name)
+        except MachineryError:
+            raise
+        except Exception as ex:
+            return None, f"{type(ex).__name__} in {RA.where_raised(ex)}: {ex}", so
+        f = RA.read_npz(name + ".npz")              # never raises; information only
+        if RA.file_is_readable(f):
+            if f["type"] == "EnergyResult":
+                f = dict(f, E_titles=list(f["E_titles"]), data=[list(x) for x in f["data"]], dshape=list(f["dshape"]),
+                         Energies=[list(e) for e in f["Energies"]],
+                         transformTR={k: (list(v) if isinstance(v, tuple) else v) for k, v in f["transformTR"].items()},
+                         transformInv={k: (list(v) if isinstance(v, tuple) else v) for k, v in f["transformInv"].items()})
+            rec["file"] = f
         rec["loaded"] = guarded(lambda: EnergyResult.from_npz(name + ".npz"))
-    except Exception as ex:
-        return None, f"{type(ex).__name__} in {RA.where_raised(ex)}: {ex}", so
     finally:
         if os.path.exists(name + ".npz"):
             os.remove(name + ".npz")
     return rec, None, so
 
 
-def check(pid, tier):
-    rep = Report(pid, tier, "model_checking")
-    thorough = tier == "thorough"
-    rng = random.Random(seed() * 7919 + 16)
-    workers = int(os.environ.get("VERIF_TLC_WORKERS", "16"))
-    scratch = workdir("c16")
-    rep.rule("a case = one step of one TLC behaviour (operation sequence from a two-object initial store of one family) executed on "
-             "the real classes with the whole store compared exactly, distinct by (initial store, operation prefix); plus seeded "
-             "random recorded operator results validated by TLC")
-    rep.assume("tensor data are small integers (float / complex arrays), scalars are integers given as int or float, divisors are 2: "
-               "all arithmetic of the implementation is exact; every projected value is verified to be integral within 1e-9")
-    rep.assume("K-resolved results: `+` is the direct sum over k-points (commutative up to the k order), `/` is a copy; "
-               "results with a None transform are not saved / transformed (named predicates Savable, TransformDefined)")
-    RA.wb()
-    replayer = Replayer(rep, scratch)
+def numeric_roundtrip(rep, replayer, rng, scratch, n):
+    """binary save / load of float results: np.savez stores the arrays as they are, so energies and data come back
+    bit for bit (np.array_equal), rank, transforms and comment unchanged.  Deciding (exact comparison)."""
+    EnergyResult, KBandResult, ResultDict, VoidResult, ps = RA.wb()
+    nprng = np.random.default_rng(seed() * 7919 + 1616)
+    done = 0
+    for trial in range(n):
+        rank = rng.choice([0, 0, 1, 2])
+        shape = tuple(rng.randint(1, 4) for _ in range(rng.choice([1, 2, 2, 3])))
+        full = shape + (3,) * rank
+        scale = 10.0 ** rng.uniform(-9, 9)
+        data = nprng.standard_normal(full) * scale
+        cplx = rng.random() < 0.5
+        if cplx:
+            data = data + 1j * nprng.standard_normal(full) * scale * 10.0 ** rng.uniform(-6, 2)
+        energies = [np.sort(nprng.uniform(-13.7, 21.3, size=m)) for m in shape]
+        cat = [t for r, ts in T_CAT.items() if r <= rank for t in ts]
+        tTR, tInv = rng.choice(cat), rng.choice(cat)
+        comment = rng.choice(["", "AHC, Fermi sea", "two\nlines", "sigma_xy (S/cm) 1e-3", "x" * 200])
+        name = os.path.join(scratch, f"num_{trial}")
+        detail = dict(numeric_only=True, energy_shape=shape, rank=rank, dtype=str(data.dtype), scale=scale, comment=comment,
+                      transformTR=RA.jsonable(tTR), transformInv=RA.jsonable(tInv),
+                      how="EnergyResult(Energies, data, transformTR, transformInv, rank, comment).save(name); EnergyResult.from_npz(name + '.npz')")
+        rep.case(("roundtrip", trial))
+        try:
+            src = EnergyResult([e.copy() for e in energies], data.copy(), transformTR=RA.make_transform(tTR), transformInv=RA.make_transform(tInv),
+                               rank=rank, comment=comment)
+            src.save(name)
+            back = EnergyResult.from_npz(name + ".npz")
+        except MachineryError:
+            raise
+        except Exception as ex:
+            replayer.violation(f"raises:{RA.where_raised(ex)}:{type(ex).__name__}", dict(detail, got=f"{type(ex).__name__}: {ex}"))
+            continue
+        finally:
+            if os.path.exists(name + ".npz"):
+                os.remove(name + ".npz")
+        bad = []
+        try:
+            if not isinstance(back, EnergyResult):
+                bad.append("class")
+            else:
+                bd = np.asarray(back.data)
+                if bd.shape != data.shape or not np.array_equal(bd, data):
+                    bad.append("data")
+                be = list(back.Energies)
+                if len(be) != len(energies) or not all(np.array_equal(np.asarray(x), y) for x, y in zip(be, energies)):
+                    bad.append("energies")
+                if int(back.rank) != rank:
+                    bad.append("rank")
+                if str(back.comment) != comment:
+                    bad.append("comment")
+                if RA.proj_transform(back.transformTR) != RA.norm_t(tTR) or RA.proj_transform(back.transformInv) != RA.norm_t(tInv):
+                    bad.append("transform")
+        except Exception as ex:
+            bad.append(f"unreadable ({type(ex).__name__}: {ex})")
+        if bad:
+            dev = None
+            try:
+                dev = float(np.abs(np.asarray(back.data) - data).max() / scale)
+            except Exception:
+                pass
+            replayer.violation(f"round trip not exact:EnergyResult.from_npz:{bad[0].split(' ')[0]}", dict(detail, differing=bad, relative_deviation_of_data=dev))
+        done += 1
+    rep.part("numeric_only", what="binary save / load of random float64 / complex128 results with non-integer energies: bit-exact (np.array_equal)",
+             cases=n, completed=done, deciding=True)
 
-    # ---------------- spec -> code : exhaustive bounded model, every behaviour replayed
-    fams = list(range(1, 13))
-    if thorough:
-        run_model(rep, "c16_mc", mc_cfg(fams, 2, pairs="PairsB", act=("Inversion", "TimeReversal", "C4z", "TRMx")), replayer, workers, 2)
-        # three operations: TLC only (the behaviours of this depth are sampled by the simulation below)
-        st3 = tlc.run_tlc("MC_ResultAlg.tla", mc_cfg([6, 10], 3, act=("TRMx",)), "c16_mc3", workers=workers, timeout=3000, coverage=False)
-        if st3.get("timeout") or (st3.get("error") and not st3.get("violation")):
-            raise MachineryError(f"TLC failed on c16_mc3: {st3.get('error')}")
-        if not ftable.spec_violation(rep, st3, "c16_mc3"):
-            rep.add_tlc("c16_mc3", st3)
-        run_simulation(rep, "c16_sim", mc_cfg(fams, 5, pairs="PairsC", act=ALL_SYMS, scal="ScalarsB"), replayer, 1500, 6, workers)
-    else:
-        run_model(rep, "c16_mc1", mc_cfg(fams, 1, act=ALL_SYMS), replayer, workers, 1, require_actions=False)
-        run_model(rep, "c16_mc", mc_cfg([2, 7, 10, 12], 2), replayer, workers, 2)
-        run_simulation(rep, "c16_sim", mc_cfg(fams, 4, pairs="PairsB", act=ALL_SYMS), replayer, 120, 5, workers)
-    missing = [a for a in OPS if replayer.ops.get(a, 0) == 0]
-    if missing:
-        raise MachineryError(f"operations never replayed on the real classes: {missing}")
-    rep.part("replay", behaviours=replayer.nbeh, steps_per_operation=replayer.ops)
 
-    # ---------------- sensitivity: plausible wrong implementations must be rejected by TLC
+def observations(rep, scratch):
+    """behaviour outside the specified domain: reported, never a violation"""
+    EnergyResult, KBandResult, ResultDict, VoidResult, ps = RA.wb()
+    t = ps.Transform()
+
+    def tell(name, f):
+        try:
+            rep.part("observations", **{name: f()})
+        except Exception as ex:
+            rep.part("observations", **{name: f"raises {type(ex).__name__}: {ex}"})
+
+    mkE = lambda: EnergyResult([np.arange(2.)], np.ones(2), transformTR=t, transformInv=t)
+    mkK = lambda: KBandResult(np.ones((2, 1)), transformTR=t, transformInv=t)
+    tell("save_with_undeclared_transform", lambda: (EnergyResult([np.arange(2.)], np.zeros(2)).save(os.path.join(scratch, "undeclared")), "works")[1])
+    tell("transform_without_energy_axes_rank0",
+         lambda: (EnergyResult([], np.array(1.0), transformTR=t, transformInv=ps.Transform(factor=-1)).transform(ps.Inversion), "works")[1])
+    # add() with a VoidResult argument (key add_inplace_void): is "the void result is neutral" meant for the in-place add() too?
+    tell("add_inplace_void:EnergyResult.add", lambda: (mkE().add(VoidResult()), "works")[1])
+    tell("add_inplace_void:K__Result.add", lambda: (mkK().add(VoidResult()), "works")[1])
+    # scalars that are numpy numbers
+    for nm, sc in (("np.int64", np.int64(2)), ("np.float64", np.float64(2.0)), ("np.float32", np.float32(2.0))):
+        tell(f"scalar_{nm}:EnergyResult.__mul__", lambda: f"data {np.asarray((mkE() * sc).data).tolist()}")
+        tell(f"scalar_{nm}:KBandResult.__mul__", lambda: f"data {np.asarray((mkK() * sc).data).tolist()}")
+    tell("void_plus_zero", lambda: f"VoidResult() + 0 -> {type(VoidResult() + 0).__name__}")
+
+
+def run_sensitivity(rep, runs, workers):
+    """plausible wrong implementations must be rejected by TLC (the four runs are independent: run them side by side)"""
+    cases = (("kvoid", [6]), ("dictvoid", [10]), ("dictsub", [9]), ("kaddzip", [12]))
+
+    def one(c):
+        wrong, famsel = c
+        return wrong, tlc.run_tlc("MC_ResultAlg.tla", mc_cfg(famsel, 2, wrong=(wrong,), act=("C4z",), symsel=("C4z",)), runs.name(f"c16_wrong_{wrong}"),
+                                  workers=1, timeout=TLC_TIMEOUT, coverage=False)
+    with ThreadPoolExecutor(max_workers=min(4, max(1, workers))) as ex:
+        res = list(ex.map(one, cases))
     sens = {}
-    for wrong, famsel in (("kvoid", [6]), ("dictvoid", [10]), ("dictsub", [9]), ("kaddzip", [12])):
-        st0 = tlc.run_tlc("MC_ResultAlg.tla", mc_cfg(famsel, 2, wrong=(wrong,)), f"c16_wrong_{wrong}", workers=4, timeout=900)
+    for wrong, st0 in res:
+        if st0.get("timeout"):
+            raise MachineryError(f"sensitivity run Wrong={{{wrong}}} timed out")
         if not st0.get("violation"):
             raise MachineryError(f"sensitivity self-test failed: MC_ResultAlg with Wrong={{{wrong}}} should violate an invariant "
                                  f"({st0.get('error') or 'no violation'})")
         sens[wrong] = st0["violation"][1]
     rep.part("sensitivity", rejected=sens)
 
+
+def check(pid, tier):
+    rep = Report(pid, tier, "model_checking")
+    runs = Runs(pid)
+    scratch = workdir(runs.name("c16"))
+    replayer = Replayer(rep, scratch)
+    try:
+        rc = _check(rep, replayer, runs, scratch, tier)
+    except Exception:
+        # never lose what was found before the machinery (or the package) failed
+        replayer.flush()
+        if rep.violations:
+            try:
+                rep.finish()
+            except Exception:
+                pass
+        raise
+    finally:
+        shutil.rmtree(scratch, ignore_errors=True)
+    if rc == 0:
+        runs.cleanup()
+    return rc
+
+
+def _check(rep, replayer, runs, scratch, tier):
+    thorough = tier == "thorough"
+    rng = random.Random(seed() * 7919 + 16)
+    workers = int(os.environ.get("VERIF_TLC_WORKERS", "4"))
+    rep.rule("a case = one step of one TLC behaviour (operation sequence from a two-object initial store of one family) executed on "
+             "the real classes with the whole store compared exactly, distinct by (initial store, operation prefix); plus seeded "
+             "random recorded operator results validated by TLC; plus seeded random float results saved and reloaded")
+    rep.assume("tensor data are small integers (float / complex arrays), scalars are integers given as int or float, divisors are 2: "
+               "all arithmetic of the implementation is exact; every projected value is verified to be integral within 1e-9")
+    rep.assume("K-resolved results: `+` is the direct sum over k-points (commutative up to the k order), `/` is a copy or the quotient; "
+               "results with a None transform are not saved / transformed (named predicates Savable, TransformDefined); 0 and None are "
+               "neutral next to every result but a VoidResult (ZeroNeutralDefined)")
+    rep.assume("not compared: the comment / titles of sums, products, transformed results (only a reloaded result has to carry the "
+               "comment and titles of the saved one); the layout of the .npz file (information in parts.npz_layout)")
+    RA.wb()
+
+    # ---------------- spec -> code : exhaustive bounded model, behaviours replayed
+    fams = list(range(1, 13))
+    if thorough:
+        run_model(rep, "c16_mc", runs.name("c16_mc"), mc_cfg(fams, 2, pairs="PairsB", act=("Inversion", "TimeReversal", "C4z", "TRMx")), replayer,
+                  workers, 2, require=OPS)
+        # three operations: TLC only (behaviours of this depth are sampled by the simulation below); not counted as replayed
+        st3 = tlc.run_tlc("MC_ResultAlg.tla", mc_cfg([6, 10], 3, act=("TRMx",)), runs.name("c16_mc3"), workers=workers, timeout=TLC_TIMEOUT, coverage=False)
+        if st3.get("timeout") or (st3.get("error") and not st3.get("violation")):
+            raise MachineryError(f"TLC failed on c16_mc3: {st3.get('error')}")
+        if not ftable.spec_violation(rep, st3, "c16_mc3"):
+            rep.part("c16_mc3_tlc_only", distinct=st3.get("distinct"), generated=st3.get("generated"), replayed=False)
+        run_simulation(rep, "c16_sim", runs, mc_cfg(fams, 5, pairs="PairsC", act=ALL_SYMS, scal="ScalarsB"), replayer, 1500, 6, workers)
+    else:
+        run_model(rep, "c16_mc1", runs.name("c16_mc1"), mc_cfg(fams, 1, act=ALL_SYMS), replayer, workers, 1)
+        run_model(rep, "c16_mc", runs.name("c16_mc"), mc_cfg([2, 10, 12], 2), replayer, workers, 2,
+                  require=[o for o in OPS if o != "LoadNpz"])
+        # persistence of every energy-resolved family (real / complex, rank 0..2, one and two energy axes)
+        run_model(rep, "c16_io", runs.name("c16_io"), mc_cfg([1, 2, 3, 4, 5], 2, spec="SpecIO", invs=["NoRaise", "LawSaveLoad"], act=("C4z",),
+                                                             symsel=("C4z",)), replayer, workers, 2, require=["SaveNpz", "LoadNpz", "SaveVoid"])
+        run_simulation(rep, "c16_sim", runs, mc_cfg(fams, 4, pairs="PairsB", act=ALL_SYMS), replayer, 60, 5, workers)
+    missing = [a for a in OPS if replayer.ops.get(a, 0) == 0]
+    if missing:
+        raise MachineryError(f"operations never replayed on the real classes: {missing}")
+    rep.part("replay", behaviours=replayer.nbeh, steps_per_operation=replayer.ops)
+    rep.part("npz_layout", **replayer.layout)
+    rep.part("k_resolved_division", **replayer.kdiv)
+    replayer.flush()
+
+    # ---------------- numeric (deciding): bit-exact binary round trip of float results
+    numeric_roundtrip(rep, replayer, rng, scratch, 150 if thorough else 40)
+    replayer.flush()
+
+    # ---------------- sensitivity: plausible wrong implementations must be rejected by TLC
+    run_sensitivity(rep, runs, workers)
+
     # ---------------- code -> spec : recorded operator results validated by TLC
     recs, meta = [], []
     nrec = 900 if thorough else 100
-    unsavable = None
     for n in range(nrec):
         r = rng.random()
-        if r < 0.5:
+        if r < 0.42:
             rec, src = record_alg(rng)
-        elif r < 0.8:
+        elif r < 0.67:
             rec, src = record_sym(rng)
+        elif r < 0.82:
+            rec, src = record_marr(rng)
         else:
             rec, err, src = record_save(rng, scratch, n)
             if rec is None:
-                exc, where = err.split(":")[0].split(" in ")
+                exc, where = err.split(":")[0].split(" in ")[:2]
                 replayer.violation(f"raises:{where}:{exc}", dict(object=RA.jsonable(src), operation="save", got=err))
                 continue
         recs.append(rec)
         meta.append(src)
         rep.case(("rec", n, rec["fn"]))
-    stv, bad = ftable.validate_records("ResultAlgRec.tla", REC_CFG, recs, "c16")
+    replayer.flush()
+    stv, bad = ftable.validate_records("ResultAlgRec.tla", REC_CFG, recs, runs.name("c16"), chunk=REC_CHUNK, timeout=TLC_TIMEOUT)
     rep.add_tlc("c16_records", stv)
     rep.add_traces(len(recs))
     kinds_seen = {}
     for r in recs:
         kinds_seen[r["fn"] + ":" + r["a"]["kind"]] = kinds_seen.get(r["fn"] + ":" + r["a"]["kind"], 0) + 1
-    for need in ("alg:E", "alg:K", "alg:D", "sym:E", "sym:K", "save:E"):
+    for need in ("alg:E", "alg:K", "alg:D", "sym:E", "sym:K", "save:E", "marr:E", "marr:K"):
         if not kinds_seen.get(need):
             raise MachineryError(f"no recorded case of class {need}")
     rep.part("records", per_class=kinds_seen)
+    advisory = {}
     for idx, clauses in bad.items():
         r = recs[idx]
         for cl in clauses:
+            if cl in ADVISORY_CLAUSES:
+                advisory[cl] = advisory.get(cl, 0) + 1
+                continue
             # root cause: an involved real operator raised, or its result differs from the specified one
             why = sorted({r[f]["why"] for f in CLAUSE_FIELDS.get(cl, ()) if f in r and r[f].get("kind") == "X"}
                          | {v["why"] for f in CLAUSE_FIELDS.get(cl, ()) if f in r and r[f].get("kind") == "D"
                             for v in r[f]["items"].values() if v.get("kind") == "X"})
             if why:
-                exc, where = why[0].split(" in ") if " in " in why[0] else (why[0], "?")
+                exc, where = why[0].split(" in ")[:2] if " in " in why[0] else (why[0], "?")
                 key = f"raises:{where}:{exc}"
             else:
                 key = f"wrong data:{RA.CLASS[r['a']['kind']]}.{CLAUSE_METHOD.get(cl, cl)}"
             replayer.violation(key, dict(record=r, failing_clause=cl, how="recorded outputs of the real operators (fields of `record`) "
                                                                           "evaluated by TLC with ResultAlgRec.tla"))
-    rep.sample({k: (v if k in ("fn", "s", "t", "g") else "...") for k, v in recs[0].items()})
-
-    # binding self-test: a corrupted record must be rejected
-    cor = copy.deepcopy([r for r in recs if r["fn"] == "alg" and r["ab"]["kind"] in ("E", "K") and idx_ok(r)][:1])
-    if not cor:
-        raise MachineryError("no record available for the binding self-test")
-    cor[0]["ab"]["data"][0][0] += 1
-    _, b2 = ftable.validate_records("ResultAlgRec.tla", REC_CFG, cor, "c16_selftest")
-    if 0 not in b2 or "add_equals_spec" not in b2[0]:
-        raise MachineryError("binding self-test failed: corrupted Add record accepted")
-    rep.part("binding_selftest", corrupted_record_rejected=b2[0])
-
-    # observation (not demanded by the adopted reading): a result whose transforms were never declared cannot be saved
-    try:
-        EnergyResult = RA.wb()[0]
-        EnergyResult([np.arange(2.)], np.zeros(2)).save(os.path.join(scratch, "undeclared"))
-        rep.part("observations", save_with_undeclared_transform="works")
-    except Exception as ex:
-        rep.part("observations", save_with_undeclared_transform=f"raises {type(ex).__name__}: {ex} (outside the specified domain: Savable)")
-
-    try:
-        ps = RA.wb()[4]
-        z = RA.wb()[0]([], np.array(1.0), transformTR=ps.Transform(), transformInv=ps.Transform(factor=-1))
-        z.transform(ps.Inversion)
-        rep.part("observations", transform_without_energy_axes_rank0="works")
-    except Exception as ex:
-        rep.part("observations", transform_without_energy_axes_rank0=f"raises {type(ex).__name__}: {ex} (outside the specified domain: EnergyShapeOK)")
-
+    rep.part("npz_layout", records_with_unreadable_layout=sum(1 for r in recs if r["fn"] == "save" and "file" not in r),
+             advisory_clauses_failed=advisory)
+    rep.sample({k: (v if k in ("fn", "s", "t", "g", "v", "ax") else "...") for k, v in recs[0].items()})
     replayer.flush()
-    shutil.rmtree(scratch, ignore_errors=True)
+
+    # binding self-test: corrupted records (one per record class that carries data) must be rejected
+    def first(fn, field):
+        for r in recs:
+            if r["fn"] == fn and r.get(field, {}).get("kind") in ("E", "K") and len(r[field].get("data", [])) > 0:
+                c = copy.deepcopy(r)
+                c[field]["data"][0][0] += 1
+                return c
+        raise MachineryError(f"no {fn} record available for the binding self-test")
+    cor = [first("alg", "ab"), first("sym", "Ta"), first("save", "loaded"), first("marr", "av")]
+    want = ["add_equals_spec", "transform_equals_spec", "round_trip", "marr_equals_spec"]
+    _, b2 = ftable.validate_records("ResultAlgRec.tla", REC_CFG, cor, runs.name("c16_selftest"), timeout=TLC_TIMEOUT)
+    for n, w in enumerate(want):
+        if w not in b2.get(n, []):
+            raise MachineryError(f"binding self-test failed: corrupted {cor[n]['fn']} record accepted (clause {w})")
+    rep.part("binding_selftest", corrupted_records_rejected={cor[n]["fn"]: b2[n] for n in range(len(cor))})
+
+    observations(rep, scratch)
+    if RA.SKIPPED_PRIVATE:
+        rep.part("skipped_private", names=sorted(RA.SKIPPED_PRIVATE))
+    replayer.flush()
     return rep.finish()
-
-
-def idx_ok(r):
-    return len(r["ab"].get("data", [])) > 0
